@@ -199,7 +199,8 @@ theorem spec_sound {w : World} {p : Proxy} {names : List Str} {req : Option Push
     private key was requested under that very name, and either has type `kubernetes` with namespace equal to
     `VerifiedIdentity.Namespace` and the proxy's cluster authorises `(serviceAccount, namespace)`, or has type
     `kubernetes-gateway` and the exact requested name is in the verified-reference set; the key pair is the one
-    of the secret stored under exactly that `(name, namespace)` in the proxy's or the config cluster. -/
+    of the secret stored under exactly that `(name, namespace)` in the config cluster - or, for `kubernetes://` only, in
+    the proxy's own cluster (`kubernetes-gateway://` secrets are read from the config cluster and nowhere else). -/
 theorem sds_release_sound (w : World) (hw : WorldOK w) (p : Proxy) (hp : ProxyOK p) (c : Cache)
     (hc : Consistent w c) (names : List Str) (req : Option PushReq) (o : GenOut)
     (h : generate w c p names req = some o) (name : Str) (v : Val) (hm : (name, v) ∈ o.res)
@@ -210,7 +211,7 @@ theorem sds_release_sound (w : World) (hw : WorldOK w) (p : Proxy) (hp : ProxyOK
       ((sr.rtype = .kubernetes ∧ sr.ns = id.ns ∧ pc.authz id.sa id.ns = true) ∨
        (sr.rtype = .gateway ∧ ∃ l, p.refs = some l ∧ name ∈ l)) ∧
       hasSuffix sr.name cacertSuffix = false ∧
-      ∃ cl ∈ w.clusters, (cl.id = p.cluster ∨ cl.id = w.configCluster) ∧
+      ∃ cl ∈ w.clusters, (cl.id = w.configCluster ∨ (sr.rtype = .kubernetes ∧ cl.id = p.cluster)) ∧
         ∃ d, cl.secrets sr.name sr.ns = some d ∧ extractCertInfo d = some v := by
   have hs := (generate_spec w hw p hp c hc names req).1
   rw [h] at hs
@@ -229,7 +230,10 @@ theorem sds_release_sound (w : World) (hw : WorldOK w) (p : Proxy) (hp : ProxyOK
     have hcl2 := (forCluster_some hf).2 cl hcl
     have hrn := (parse_some hparse).1
     obtain ⟨_, _, hkk | hcc | hgg | hii⟩ := parse_some hparse
-    · refine ⟨Or.inl ⟨hkk.1, ?_⟩, hnca, cl, hcl2.1, by rw [← hkk.2.1]; exact hcl2.2, d, hd, he⟩
+    · refine ⟨Or.inl ⟨hkk.1, ?_⟩, hnca, cl, hcl2.1, (by
+        cases hcl2.2 with
+        | inl hh => exact Or.inr ⟨hkk.1, by rw [hh, hkk.2.1]⟩
+        | inr hh => exact Or.inl hh), d, hd, he⟩
       unfold Entitled at hent
       simp only [hkk.1] at hent
       refine ⟨hent.1, ?_⟩
@@ -237,7 +241,7 @@ theorem sds_release_sound (w : World) (hw : WorldOK w) (p : Proxy) (hp : ProxyOK
       | inl hh => rw [hnca] at hh; cases hh
       | inr hh => exact hh
     · exact absurd hcc.1 hncm
-    · refine ⟨Or.inr ⟨hgg.1, ?_⟩, hnca, cl, hcl2.1, Or.inr (by
+    · refine ⟨Or.inr ⟨hgg.1, ?_⟩, hnca, cl, hcl2.1, Or.inl (by
         cases hcl2.2 with
         | inl hh => rw [hh, hgg.2.1]
         | inr hh => exact hh), d, hd, he⟩
